@@ -65,7 +65,9 @@ fn main() {
     if opts.tier != "quick" && opts.tier != "thorough" {
         usage();
     }
-    common::install_quiet_panic_hook();
+    if std::env::var_os("VERIF_PANIC_VERBOSE").is_none() {
+        common::install_quiet_panic_hook();
+    }
     let code = std::panic::catch_unwind(|| match (engine.as_str(), &replay, &prop) {
         ("io", Some(p), _) => io::replay(p, quiet),
         ("io", None, Some(p)) if ["C02", "C03", "C06", "C11"].contains(&p.as_str()) => {
